@@ -94,7 +94,10 @@ fn damage_sweep_impl(from_tail: usize, skip_tail: usize, name: &str) {
 		w.finish().unwrap();
 	}
 	let tmp = tempdir::TempDir::new("verif_c16").unwrap();
-	let answers = |data: Vec<u8>| -> std::result::Result<Vec<Option<(Vec<u8>, Vec<u8>)>>, String> {
+	// three readings, judged SEPARATELY (a reading that fails is a detection; one that succeeds must equal the
+	// pristine table): all point lookups, the complete forward scan, the complete backward scan
+	type Reading = std::result::Result<Vec<Option<(Vec<u8>, Vec<u8>)>>, String>;
+	let answers = |data: Vec<u8>| -> std::result::Result<Vec<Reading>, String> {
 		let size = data.len() as u64;
 		// a real file (SysFile), as in production: reads past the end of the file return short counts
 		let path = tmp.path().join("t.sst");
@@ -105,16 +108,31 @@ fn damage_sweep_impl(from_tail: usize, skip_tail: usize, name: &str) {
 		let mut o = Options::new();
 		o.block_size = 256;
 		let t = Table::new(9, Arc::new(o), file, size).map_err(|e| e.to_string())?;
-		let mut out = Vec::new();
-		for k in &keys {
-			let probe = InternalKey::new(k.user_key.clone(), k.seq_num(), InternalKeyKind::Set, 0);
-			let r = t.get(&probe).map_err(|e| e.to_string())?;
-			out.push(r.map(|(ik, v)| (ik.encode(), v)));
-		}
-		Ok(out)
+		let gets = || -> Reading {
+			let mut out = Vec::new();
+			for k in &keys {
+				let probe = InternalKey::new(k.user_key.clone(), k.seq_num(), InternalKeyKind::Set, 0);
+				let r = t.get(&probe).map_err(|e| e.to_string())?;
+				out.push(r.map(|(ik, v)| (ik.encode(), v)));
+			}
+			Ok(out)
+		};
+		let scan = |backward: bool| -> Reading {
+			use crate::LSMIterator as _;
+			let mut out = Vec::new();
+			let mut it = t.iter(None).map_err(|e| e.to_string())?;
+			let mut ok = if backward { it.seek_last() } else { it.seek_first() }.map_err(|e| e.to_string())?;
+			while ok && out.len() <= keys.len() + 2 {
+				out.push(Some((it.key().encoded().to_vec(), it.value_encoded().map_err(|e| e.to_string())?.to_vec())));
+				ok = if backward { it.prev() } else { it.next() }.map_err(|e| e.to_string())?;
+			}
+			Ok(out)
+		};
+		Ok(vec![gets(), scan(false), scan(true)])
 	};
-	let pristine = answers(buf.clone()).unwrap();
-	assert!(pristine.iter().all(|a| a.is_some()));
+	let pristine: Vec<Vec<Option<(Vec<u8>, Vec<u8>)>>> = answers(buf.clone()).unwrap().into_iter().map(|r| r.unwrap()).collect();
+	assert!(pristine[0].iter().all(|a| a.is_some()) && pristine[1].len() == keys.len() && pristine[2].len() == keys.len());
+	let names = ["point lookups", "forward scan", "backward scan"];
 	let mut cases = 0u64;
 	let mut detected = 0u64;
 	let mut failures: Vec<String> = Vec::new();
@@ -133,11 +151,21 @@ fn damage_sweep_impl(from_tail: usize, skip_tail: usize, name: &str) {
 					}
 				}
 				Ok(Err(_)) => detected += 1,
-				Ok(Ok(a)) => {
-					if a != pristine && failures.len() < 5 {
-						let nbad = a.iter().zip(pristine.iter()).filter(|(x, y)| x != y).count();
-						let missing = a.iter().filter(|x| x.is_none()).count();
-						failures.push(format!("{{\"offset\":{off},\"xor\":{pat},\"file_len\":{},\"outcome\":\"different data served without error: {nbad} of {} lookups differ ({missing} report the key as absent)\"}}", buf.len(), a.len()));
+				Ok(Ok(readings)) => {
+					let mut any_err = false;
+					for (i, rd) in readings.iter().enumerate() {
+						match rd {
+							Err(_) => any_err = true,
+							Ok(a) => {
+								if *a != pristine[i] && failures.len() < 5 {
+									let nbad = a.iter().zip(pristine[i].iter()).filter(|(x, y)| x != y).count() + a.len().abs_diff(pristine[i].len());
+									failures.push(format!("{{\"offset\":{off},\"xor\":{pat},\"file_len\":{},\"outcome\":\"different data served without error by the {}: {} answers, the pristine table gives {}, {nbad} differ\"}}", buf.len(), names[i], a.len(), pristine[i].len()));
+								}
+							}
+						}
+					}
+					if any_err {
+						detected += 1;
 					}
 				}
 			}
